@@ -401,6 +401,15 @@ ModelPtr Model::clone() const
         fixComponentUnits(m, m->component(index));
     }
 
+    // Entities that share an import source in this model share (a copy of) it in the clone.
+    ImportSourceMap importSourceMap;
+    for (size_t index = 0; index < pFunc()->mUnits.size(); ++index) {
+        shareClonedImportSources(units(index), m->units(index), importSourceMap);
+    }
+    for (size_t index = 0; index < componentCount(); ++index) {
+        shareClonedImportSources(component(index), m->component(index), importSourceMap);
+    }
+
     // Generate equivalence map starting from the models components.
     EquivalenceMap map;
     IndexStack indexStack;
